@@ -561,6 +561,20 @@ def case_outname(ctx, inp):
     s1, s2 = r1.compute(scheduler="sync"), r2.compute(scheduler="sync")
     if not (same(s1, e1) and same(s2, e2)):
         ctx.fail("ufunc(where=, out=) differs from NumPy when computed alone")
+    if len(shape) >= 1:   # 0-d: a computed 0-d block is a NumPy scalar, which np.<ufunc>(out=) refuses (not compared here)
+        # `out` is itself a COMPUTED array that other results of the same compute still read (seed C19-2: the masked
+        # kernel must never write into the stored block of the upstream task)
+        src = da.from_array(o1.copy(), chunks=ch) * 2.0
+        keep, keep2 = src.copy(), src + 1.0
+        r3 = f_da(*dargs, where=dw, out=src)
+        e3 = f_np(*args_np, where=w, out=np.array(o1 * 2.0))
+        g3, k1, k2 = dask.compute(r3, keep, keep2, scheduler="sync")
+        if not same(g3, e3):
+            ctx.fail("ufunc(where=, out=computed array) differs from NumPy", observed=np.asarray(g3).tolist(), expected=e3.tolist())
+        if not (same(k1, o1 * 2.0) and same(k2, o1 * 2.0 + 1.0)):
+            ctx.fail("ufunc(where=, out=computed array) changed another result that reads the old value of out in the same compute",
+                     observed=[np.asarray(k1).tolist(), np.asarray(k2).tolist()], expected=[(o1 * 2.0).tolist(), (o1 * 2.0 + 1.0).tolist()])
+        ctx.branch("out-is-computed-and-read-by-another-result")
     if not same(e1, e2):
         ctx.branch("out-shows-through-mask")
     # an `out` of another shape is rejected (NumPy: "non-broadcastable output operand"), never silently rebound
